@@ -494,10 +494,19 @@ func (g *gen) text(maxLen int, percent bool) string {
 			b.WriteString(g.r.Pick([]string{"%", "%%", "%d", "%s", "%v"}))
 			continue
 		}
+		if g.r.Chance(1, 12) {
+			// text that LOOKS like an escape sequence of the concrete syntax when it is written literally
+			b.WriteString(g.r.Pick(escapeLookalikes))
+			continue
+		}
 		b.WriteRune(runes[g.r.Intn(len(runes))])
 	}
 	return b.String()
 }
+
+// literal texts (backslash and all) which a writer that post-processes its own escaped output gets wrong
+var escapeLookalikes = []string{`\u003c`, `\u003e`, `\u0026`, `\u0022`, `\u005c`, `\u00e9`, `\ud83d`, `\n`, `\t`, `\"`, `\`,
+	`\/`, `\u`, `\u00`, `&lt;`, `&amp;`, `</`, `\x41`, `\0`}
 
 // one key segment (never contains a dot unless dots is set)
 func (g *gen) seg(dots bool) string {
